@@ -237,93 +237,54 @@ example : ∃ n, pollAt ⟨fun _ => 0, fun _ _ => 0, fun _ _ => 0, fun _ _ => 0,
     (fun j _ => by simp [UpdateSound, nextInterval, asUsize])
   exact ⟨n, h1, h3⟩
 
-/-! ## 5. delivery: which handlers can see a timeout -/
+/-! ## 5. delivery: no handler can see a timeout
+
+The model mirrors the code after the repair of F-C08-1 (commit 5a7e832): an error keeps its kind
+when native code hands it from a nested interpreter entry to the enclosing one, and the enclosing
+entry re-raises it with `allow_catch = kind.allowCatch` (`false` for a timeout). Before the repair
+the re-raise used `allow_catch = true` for every kind and the model proved the negation
+(`catchable_nested_witness`: `try (1, 2).each(|x| loop …).to_list() catch …` swallowed the timeout);
+that witness now has to escape — see the `example`s below and the harness sweep. -/
 
 /-- the executable path (`unwind` per entry + re-raise) equals the one-pass description -/
 theorem deliver_flat (stack : List Frame) :
-    deliverTimeout stack = deliverFlat false stack ∧ deliverError stack = deliverFlat true stack :=
+    deliverTimeout stack = deliverFlat .timeout false stack ∧
+    deliverError stack = deliverFlat .other true stack :=
   ⟨deliverTimeout_flat stack, deliverError_flat stack⟩
 
 /-- A timeout detected in entry `E` (the top entry of the stack) is not delivered to any catch of
-`E`'s frames: the unwinding inside `E` never yields a handler, the outcome does not depend on the
-handlers of `E`'s frames at all (it equals the delivery of an ordinary error raised in the frames
-*below* `E`), and if some handler is reached the resumed frame lies strictly below `E`. -/
-theorem not_catchable_same_entry (stack : List Frame) :
-    (unwind false stack).1 = none ∧
-    deliverTimeout stack = deliverError (belowTopEntry stack) ∧
-    (∀ h n, deliverTimeout stack = .caught h n → n ≤ (belowTopEntry stack).length) := by
-  refine ⟨?_, ?_, ?_⟩
-  · induction stack with
-    | nil => simp [unwind]
-    | cons f rest ih => cases hb : f.barrier <;> simp [unwind, hb, ih]
-  · rw [deliverTimeout_flat, deliverError_flat, flat_false_below]
-  · intro h n hc
-    rw [deliverTimeout_flat, flat_false_below] at hc
-    cases hf : firstHandler (belowTopEntry stack) with
-    | none => rw [(flat_true_handler _).2 hf] at hc; cases hc
-    | some h' =>
-      obtain ⟨n', hn', _, hle⟩ := (flat_true_handler _).1 h' hf
-      rw [hn'] at hc; cases hc; exact hle
+`E`'s frames: the unwinding inside `E` never yields a handler. -/
+theorem not_catchable_same_entry (stack : List Frame) : (unwind false stack).1 = none := by
+  induction stack with
+  | nil => simp [unwind]
+  | cons f rest ih => cases hb : f.barrier <;> simp [unwind, hb, ih]
 
-/-- handlers of the detecting entry are irrelevant: changing them changes nothing -/
-theorem same_entry_handlers_irrelevant (e1 e2 below : List Frame)
-    (hb1 : belowTopEntry (e1 ++ below) = below) (hb2 : belowTopEntry (e2 ++ below) = below) :
-    deliverTimeout (e1 ++ below) = deliverTimeout (e2 ++ below) := by
-  have a := (not_catchable_same_entry (e1 ++ below)).2.1
-  have b := (not_catchable_same_entry (e2 ++ below)).2.1
-  rw [a, b, hb1, hb2]
+/-- … and it is not delivered to any catch of any enclosing entry either: for every call stack —
+any number of nested entries, open handlers anywhere — a timeout reaches the host. A script cannot
+swallow it. -/
+theorem not_catchable_nested (stack : List Frame) : deliverTimeout stack = .escaped := by
+  rw [deliverTimeout_flat]; exact flat_timeout_escaped stack
 
-/-- A timeout detected in the outermost entry (nothing below it), or with no open handler in any
-frame below the detecting entry, reaches the host: it cannot be swallowed. -/
-theorem not_catchable_partial (stack : List Frame) (h : firstHandler (belowTopEntry stack) = none) :
-    deliverTimeout stack = .escaped := by
-  rw [deliverTimeout_flat, flat_false_below]
-  exact (flat_true_handler _).2 h
+/-- handlers are irrelevant for a timeout: two stacks of any shape give the same delivery -/
+theorem timeout_handlers_irrelevant (s1 s2 : List Frame) : deliverTimeout s1 = deliverTimeout s2 := by
+  rw [not_catchable_nested, not_catchable_nested]
 
-theorem not_catchable_outermost (stack : List Frame) (h : belowTopEntry stack = []) :
-    deliverTimeout stack = .escaped :=
-  not_catchable_partial stack (by rw [h]; rfl)
+/-- the former witness of F-C08-1: callback frame = nested entry, handler 7 open in the main chunk -/
+example : deliverTimeout [⟨[], true⟩, ⟨[7], true⟩] = .escaped := by decide
 
-/-- The negation of "a script cannot swallow the timeout" in the model (= in the code, F-C08-1):
-whenever a frame *below* the detecting entry has an open `try`, the timeout is delivered to the
-innermost such handler exactly like an ordinary error, and the script continues. -/
-theorem catchable_nested (stack : List Frame) (h : Nat) (hh : firstHandler (belowTopEntry stack) = some h) :
-    ∃ n, deliverTimeout stack = .caught h n ∧ 0 < n := by
-  rw [deliverTimeout_flat, flat_false_below]
-  obtain ⟨n, hn, hpos, _⟩ := (flat_true_handler _).1 h hh
-  exact ⟨n, hn, hpos⟩
+/-- handler in a middle entry, two nested entries above it -/
+example : deliverTimeout [⟨[], true⟩, ⟨[], false⟩, ⟨[3], true⟩, ⟨[9], true⟩] = .escaped := by decide
 
-/-- concrete witness: `try (1, 2).each(|x| loop …).to_list() catch …` — the callback's frame is a
-nested entry (barrier), the main chunk's frame has handler 7 open. -/
-theorem catchable_nested_witness :
-    deliverTimeout [⟨[], true⟩, ⟨[7], true⟩] = .caught 7 1 := by decide
-
-/-- same stack, try/catch *inside* the callback instead: not catchable -/
-example : deliverTimeout [⟨[3], true⟩, ⟨[], true⟩] = .escaped := by decide
-
-/-- a plain call chain with handlers at every level of one entry: not catchable -/
+/-- a plain call chain with handlers at every level of one entry -/
 example : deliverTimeout [⟨[1], false⟩, ⟨[2, 3], false⟩, ⟨[4], true⟩] = .escaped := by decide
 
-/-- an ordinary error on the same stack is caught by the innermost handler -/
+/-- ordinary errors on the same stacks are caught by the innermost handler (the statement about
+timeouts is not vacuous: delivery does reach handlers — across entries — for other kinds) -/
 example : deliverError [⟨[1], false⟩, ⟨[2, 3], false⟩, ⟨[4], true⟩] = .caught 1 3 := by decide
+example : deliverError [⟨[], true⟩, ⟨[7], true⟩] = .caught 7 1 := by decide
 
-/-- exact characterisation: a timeout is swallowed iff a frame below the detecting entry has an
-open handler -/
-theorem timeout_caught_iff (stack : List Frame) :
-    (∃ h n, deliverTimeout stack = .caught h n) ↔ (firstHandler (belowTopEntry stack)).isSome := by
-  constructor
-  · intro ⟨h, n, hc⟩
-    cases hf : firstHandler (belowTopEntry stack) with
-    | none => rw [not_catchable_partial stack hf] at hc; cases hc
-    | some _ => rfl
-  · intro hs
-    cases hf : firstHandler (belowTopEntry stack) with
-    | none => rw [hf] at hs; cases hs
-    | some h =>
-      obtain ⟨n, hn, _⟩ := catchable_nested stack h hf
-      exact ⟨h, n, hn⟩
-
-/-- ordinary errors: delivered to the dynamically innermost open handler across entries -/
+/-- ordinary errors: delivered to the dynamically innermost open handler across entries; to the
+host iff no handler is open -/
 theorem error_caught_innermost (stack : List Frame) :
     (∀ h, firstHandler stack = some h → ∃ n, deliverError stack = .caught h n) ∧
     (firstHandler stack = none → deliverError stack = .escaped) := by
@@ -333,5 +294,13 @@ theorem error_caught_innermost (stack : List Frame) :
     obtain ⟨n, hn, _⟩ := (flat_true_handler stack).1 h hh
     exact ⟨n, hn⟩
   · exact (flat_true_handler stack).2
+
+/-- What the repair relies on: the kind must survive the native code between two entries. If a
+native caller re-raised a timeout as an ordinary error (as the `for` instruction did for iterator
+errors before 5a7e832), an open handler below would catch it — delivery of `.other` from the
+frames below is exactly `deliverError`. -/
+theorem laundered_kind_catchable (below : List Frame) (h : Nat) (hh : firstHandler below = some h) :
+    ∃ n, deliverError below = .caught h n :=
+  (error_caught_innermost below).1 h hh
 
 end KotoVerif.C08
